@@ -1546,19 +1546,21 @@ def _g_where_out(g, ins):
     need(np.result_type(x.np.dtype, y.np.dtype) == x.np.dtype)
     if fn == "multiply":
         need(x.mag <= 2**20 and y.mag <= 2**10 and x.inx == 0 and y.inx == 0)
-    return {"fn": fn, "thr": g.rng.randint(-2, 3), "mask_of": g.rng.choice(["x", "y"]), "out": g.rng.choice(["x", "x", "y2"])}
+    return {"fn": fn, "thr": g.rng.randint(-2, 3), "mask_of": g.rng.choice(["x", "y"]), "out": g.rng.choice(["x", "x", "y2", "x_shared", "x_shared"])}
 
 
 def _where_out(mod, p, x, y):
     m = (x if p["mask_of"] == "x" else y) > p["thr"]
     if mod is np:
         m = np.broadcast_to(m, x.shape)
-        o = (x if p["out"] == "x" else x * 2).copy()
+        o = (x * 2 if p["out"] == "y2" else x).copy()
         getattr(np, p["fn"])(x, y, where=m, out=o)
-        return o
-    o = x.copy() if p["out"] == "x" else x * 2  # x.copy() shares x's expression: `out` then has x's other consumers as siblings
+        return o - x if p["out"] == "x_shared" else o
+    o = x * 2 if p["out"] == "y2" else x.copy()  # x.copy() shares x's expression: `out` then has x's other consumers as siblings
     r = getattr(mod, p["fn"])(x, y, where=m, out=o)
-    return o
+    # "x_shared": the value out was taken from keeps a second consumer in the same graph, so a kernel writing into
+    # the block it was given would be seen by that sibling
+    return o - x if p["out"] == "x_shared" else o
 
 
 defop("ufunc_where_out", 2, _g_where_out, lambda p, x, y: _where_out(np, p, x, y), lambda p, x, y: _where_out(da(), p, x, y), "elemwise whereout", w=1.5)
